@@ -439,6 +439,12 @@ func (w *World) stepNewDeposit(a newDepositArgs, r *Rand) string {
 	if resp.NetworkName != w.Cfg.Network {
 		w.violate("C17", "handed-out-wrong-network", "network", "node %d handed out an address for network %q, configured %q", n.ID, resp.NetworkName, w.Cfg.Network)
 	}
+	// the address (and data-output script) handed out is the one of the key named in the answer and
+	// of the EVM address asked for (a node that answers from memory after a key rotation fails here)
+	if ref0, ref1, rok := refDepositScripts(version, resp.PublicKey, []byte(w.Cfg.Magic), evm.Bytes()); !rok || !bytes.Equal(script, ref0) || (version == 1 && !bytes.Equal(resp.OpReturnScript, ref1)) {
+		w.Stats.OracleEvals["C17"]++
+		w.violate("C17", "handed-out-address-not-for-requested-target", "query-answer", "node %d answered the deposit-address query for %x (version %d) with address %s / data output %x, which is not the address of the key it names and that target (expected %x / %x)", n.ID, evm[:6], version, resp.Address, resp.OpReturnScript, ref0, ref1)
+	}
 	if a.ScriptMut != "" && len(script) > 2 {
 		script = append([]byte{}, script...)
 		switch a.ScriptMut {
@@ -526,7 +532,7 @@ func (w *World) stepProveDeposits(a proveArgs, r *Rand) string {
 
 var badDepositVariants = []string{"wrong-position", "alias-position", "truncated-path", "extended-path", "permuted-path", "inner-node-as-tx", "other-block-proof",
 	"unvoted-header", "fake-header", "dup-in-batch", "dup-alias-in-batch", "alias-last-position", "dup-across", "wrong-evm", "unregistered-key", "other-registered-key", "wrong-version", "v1-other-magic", "vout-oob", "vout-other",
-	"oversize", "undersize", "dup-header-heights", "bitflip-tx", "nil-key", "short-evm", "no-headers", "many-headers", "zero-position-claim", "own-key"}
+	"oversize", "undersize", "dup-header-heights", "bitflip-tx", "nil-key", "short-evm", "no-headers", "many-headers", "zero-position-claim", "same-position-other-tx", "own-key"}
 
 // mutateDeposits applies one adversarial variant to an otherwise well-formed batch.
 func (w *World) mutateDeposits(msg *bitcointypes.MsgNewDeposits, facts []*DepositFact, a proveArgs, r *Rand) {
@@ -595,6 +601,17 @@ func (w *World) mutateDeposits(msg *bitcointypes.MsgNewDeposits, facts []*Deposi
 		msg.BlockHeaders[0].Raw = hdr
 		d0.IntermediateProof = sib
 		d0.TxIndex = 1
+	case "same-position-other-tx":
+		// after the genuine item: a made-up transaction (never mined) with a valid deposit output,
+		// claimed at the very same block position with the very same path
+		c := *d0
+		mt := f0.Tx.Msg.Copy()
+		mt.LockTime += uint32(1 + a.Arg)
+		if int(c.OutputIndex) < len(mt.TxOut) {
+			mt.TxOut[c.OutputIndex].Value = mt.TxOut[c.OutputIndex].Value*2 + 12345
+		}
+		c.NoWitnessTx = newBtcTx(mt, "made up").Raw
+		msg.Deposits = append(msg.Deposits, &c)
 	case "dup-in-batch":
 		c := *d0
 		msg.Deposits = append(msg.Deposits, &c)
@@ -896,6 +913,45 @@ func (w *World) stepReplay(a replayArgs, r *Rand) string {
 			return w.submitMulti(st.Raw, st.Msgs, st.Truths, "replay-verbatim/"+st.Label)
 		}
 		return w.submit(st.Raw, st.Msgs, st.Truth, "replay-verbatim/"+st.Label, false)
+	case "reseq", "retarget":
+		// reseq: an old vote (same payload, same signature) with the sequence / epoch fields of the
+		// Votes structure edited to the current values. retarget: an old vote, untouched, in front of
+		// another payload of the same action. Either passes only if signatures are not checked over
+		// (action, payload, chain, epoch, sequence) every time.
+		cv := w.chainView()
+		if cv == nil || cv.Proposer == nil || st.Truths != nil || len(st.Msgs) != 1 || st.Truth == nil {
+			return "skip:not-applicable"
+		}
+		c := protoCloneMsg(st.Msgs[0])
+		vm, ok := votedMsg(c)
+		if !ok || vm.GetVote() == nil {
+			return "skip:not-voted"
+		}
+		setProposer(c, cv.Proposer.Addr())
+		if a.Mode == "reseq" {
+			vm.GetVote().Sequence = cv.Seq
+			vm.GetVote().Epoch = cv.Rel.Epoch
+		} else {
+			switch m := c.(type) {
+			case *bitcointypes.MsgNewPubkey:
+				m.Pubkey = relayerPubKey(newSecpKey(w.Seed, "retarget", len(w.rel().Sent)), r.Chance(0.4))
+			case *bitcointypes.MsgNewConsolidation:
+				m.NoWitnessTx = w.Btc.spend([]*wire.TxOut{{Value: int64(100000 + r.Intn(100000)), PkScript: w.systemScript(w.M.Btc.CurKey)}}, "retarget").Raw
+			case *bitcointypes.MsgNewBlockHashes:
+				for i := range m.BlockHash {
+					m.BlockHash[i] = sha(m.BlockHash[i], []byte("retarget"))
+				}
+				if len(m.BlockHash) == 0 {
+					m.BlockHash = [][]byte{sha([]byte("retarget"))}
+				}
+			default:
+				return "skip:no-retarget-for-kind"
+			}
+		}
+		t := *st.Truth
+		t.Honest = false
+		t.Variant = "replay-" + a.Mode
+		return w.sendMsgs([]sdk.Msg{c}, &t, "replay-"+a.Mode+"/"+st.Label, false, nil, TxOpts{})
 	default:
 		if st.Truths != nil {
 			return w.submitMulti(st.Raw, st.Msgs, st.Truths, "replay-verbatim/"+st.Label)
@@ -1130,7 +1186,7 @@ func (w *World) genRelayerStep(kind string, r *Rand, sub uint64) (Step, bool) {
 	case "btc.mine":
 		return mkStep("btc.mine", mineArgs{N: 1 + r.Intn(3) + r.Intn(2)*r.Intn(30)}, sub), true
 	case "rel.hashes":
-		return mkStep("rel.hashes", hashesArgs{Count: 1 + r.Intn(16), Empty: r.Chance(0.06)}, sub), true
+		return mkStep("rel.hashes", hashesArgs{Count: 1 + r.Intn(16), Empty: r.Chance(0.12)}, sub), true
 	case "rel.pubkey":
 		return mkStep("rel.pubkey", pubkeyArgs{KeyIdx: len(w.BtcKeys) - r.Intn(2), Schnorr: r.Chance(0.4)}, sub), true
 	case "rel.consolidation":
@@ -1156,7 +1212,7 @@ func (w *World) genRelayerStep(kind string, r *Rand, sub uint64) (Step, bool) {
 		}
 		return mkStep("rel.hashes", a, sub), true
 	case "rel.replay":
-		return mkStep("rel.replay", replayArgs{Back: r.Intn(40), Mode: pick(r, []string{"verbatim", "rewrap", "rewrap"})}, sub), true
+		return mkStep("rel.replay", replayArgs{Back: r.Intn(40), Mode: pick(r, []string{"verbatim", "rewrap", "rewrap", "reseq", "reseq", "retarget", "retarget"})}, sub), true
 	case "rel.group":
 		return w.genGroupStep(r, sub), true
 	case "rel.deposit":
@@ -1259,6 +1315,20 @@ func (w *World) genGroupStep(r *Rand, sub uint64) Step {
 		}
 		if r.Chance(0.2) && len(w.Members) > 0 {
 			idx = r.Intn(len(w.Members)) // re-joining or duplicate address
+		}
+		if r.Chance(0.25) {
+			// a former proposer that has left the group: its address owns an account (it signed
+			// transactions), which sends its new registration down another path
+			var ex []int
+			for _, m := range w.Members {
+				if rs.EverProposer[m.Addr()] && cur.Voters[m.Addr()] == nil {
+					ex = append(ex, m.Idx)
+				}
+			}
+			if len(ex) > 0 {
+				idx = pick(r, ex)
+				w.probe("former-proposer-re-added")
+			}
 		}
 		return mkStep("rel.group", groupArgs{Action: "add", Member: idx, Variant: v}, sub)
 	case k < 70 && len(active) > 0:
